@@ -298,6 +298,10 @@ fn test_ctor(c: &Ctor, cx: &mut Cx) -> CaseResult {
             ensure!(!(s_ok && n_ok && t_ok), "new-rejects-in-range", "Timestamp::new({}, {}) = Err({e})", c.s, c.n);
         }
     }
+    // the const constructor (documented to panic outside the range) denotes the same instant
+    if s_ok && n_ok && t_ok {
+        same_ts(Timestamp::constant(c.s, c.n), total, "constant")?;
+    }
     // unit constructors: Ok exactly when the denoted instant is in range
     let checks: [(&str, i128, Result<Timestamp, jiff::Error>); 3] = [
         ("from_second", c.s as i128 * NS_PER_SEC, Timestamp::from_second(c.s)),
